@@ -11,7 +11,7 @@ fn ptr_from_bytes_method(_ctx: &Context, input: &DeriveInput) -> TokenStream {
             quote! {
                 use ::flatty::utils::{floor_mul, mem::{offset_slice_ptr_start, cast_wide_ptr_with_offset, set_slice_ptr_len, slice_ptr_len}};
                 // The value must end on a multiple of its own alignment inside the slice.
-                let __flatty_bytes = set_slice_ptr_len(__flatty_bytes, floor_mul(slice_ptr_len(__flatty_bytes), Self::ALIGN));
+                let __flatty_bytes = set_slice_ptr_len(__flatty_bytes, floor_mul(slice_ptr_len(__flatty_bytes), <Self as ::flatty::traits::FlatBase>::ALIGN));
                 cast_wide_ptr_with_offset!(
                     Self,
                     <#last_ty as FlatUnsized>::ptr_from_bytes(offset_slice_ptr_start(__flatty_bytes, Self::LAST_FIELD_OFFSET as isize)),
@@ -21,7 +21,7 @@ fn ptr_from_bytes_method(_ctx: &Context, input: &DeriveInput) -> TokenStream {
         }
         Data::Enum(..) => quote! {
             use ::flatty::utils::{floor_mul, mem::{set_slice_ptr_len, slice_ptr_len}};
-            set_slice_ptr_len(__flatty_bytes, floor_mul(slice_ptr_len(__flatty_bytes) - Self::DATA_OFFSET, Self::ALIGN)) as *mut Self
+            set_slice_ptr_len(__flatty_bytes, floor_mul(slice_ptr_len(__flatty_bytes) - Self::DATA_OFFSET, <Self as ::flatty::traits::FlatBase>::ALIGN)) as *mut Self
         },
         Data::Union(..) => unimplemented!(),
     };
@@ -45,7 +45,7 @@ fn ptr_to_bytes_method(_ctx: &Context, input: &DeriveInput) -> TokenStream {
                     -(Self::LAST_FIELD_OFFSET as isize),
                 );
                 // The value occupies a multiple of its own alignment (like `size_of_val`).
-                set_slice_ptr_len(__flatty_bytes, ceil_mul(slice_ptr_len(__flatty_bytes), Self::ALIGN))
+                set_slice_ptr_len(__flatty_bytes, ceil_mul(slice_ptr_len(__flatty_bytes), <Self as ::flatty::traits::FlatBase>::ALIGN))
             }
         }
         Data::Enum(..) => quote! {
